@@ -107,24 +107,29 @@ func GenerateDataModel(pclass cmdutils.ClassLabeler, outmap map[string]string, m
 	stmts []*sysl.Statement, title, project, outDir string, epName bool) {
 	apps := mod.GetApps()
 
-	// Parse all the applications in the project
+	// Parse all the applications in the project: one diagram for all the applications the endpoint names
+	var named []*sysl.Application
 	for _, stmt := range stmts {
 		if a, ok := stmt.Stmt.(*sysl.Statement_Action); ok {
-			var stringBuilder strings.Builder
-			app := apps[a.Action.Action]
-			if app != nil {
-				dataParam := &DataModelParam{
-					Mod:     mod,
-					App:     app,
-					Title:   title,
-					Project: project,
-					Epname:  epName,
-				}
-				v := MakeDataModelView(pclass, dataParam.Mod, &stringBuilder, dataParam.Title, dataParam.Project)
-				outmap[outDir] = v.GenerateDataView(dataParam)
+			if app := apps[a.Action.Action]; app != nil {
+				named = append(named, app)
 			}
 		}
 	}
+	if len(named) == 0 {
+		return
+	}
+	var stringBuilder strings.Builder
+	dataParam := &DataModelParam{
+		Mod:     mod,
+		App:     named[len(named)-1],
+		Apps:    named,
+		Title:   title,
+		Project: project,
+		Epname:  epName,
+	}
+	v := MakeDataModelView(pclass, dataParam.Mod, &stringBuilder, dataParam.Title, dataParam.Project)
+	outmap[outDir] = v.GenerateDataView(dataParam)
 }
 
 func GenerateDataModels(datagenParams *cmdutils.CmdContextParamDatagen,
